@@ -249,7 +249,8 @@ class SimFS:
                 parent.entries[nm] = node.ino
 
     def h_write(self, path: str, text: str) -> None:
-        data = text.encode("utf-8") if isinstance(text, str) else bytes(text)
+        # str may carry arbitrary bytes as lone surrogates (surrogateescape): byte-level mutations
+        data = text.encode("utf-8", "surrogateescape") if isinstance(text, str) else bytes(text)
         parent, name = self._walk(path, want_parent=True)
         ino = parent.entries.get(name)
         if ino is not None and self.inodes[ino].kind == "l":
